@@ -1,16 +1,115 @@
 /-
 C11 — Lazy streams are coherent: length, iteration, indexing, slicing, reversal agree.
-(first version; extended below)
+
+Layout of the proof (all modules are listed in tools/props.d/C11.json and audited):
+* `C11Iter`  — generic: `Unfolds next s l` (the Spec's `toList`, as a relation), the loops of the
+  `Stream` trait defaults compute Python indexing / slicing / reversal / length of `l`
+  (`defaultIndex_eq`, `defaultSlice_eq`, `pySlice_spec`, …); `Coherent o s l` = every trait method
+  answers what the list answers; the consumers (`len`, `list`, index, slice, `reverse`, `first`,
+  `last`, `in`, truthiness, unpacking with and without splat, take-while, drop-while) on a coherent
+  stream equal the list operation (`len_eq` … `dropWhile_eq`).
+* `C11Types` — `range_coherent` (every start/end, every non-zero step of either sign, any
+  magnitude, closed form = arithmetic progression), `wrapped_coherent`, `subseq_coherent`,
+  `cpow_coherent`, `comb_coherent`, the F3 refutation.
+* `C11Adapt` — `map_coherent`, `filter_coherent`, `zip_coherent` over hereditarily finite inner
+  streams, every drop position (`UnfoldsB.drop`), `mapOut_coherent`.
+* `C11Inf`   — `iota`, `repeat`, `cycle`, `iterate`: every non-negative index, every slice with
+  non-negative bounds and every drop equals the recurrence; `len = none`.
+* `C11Perm`  — Permutations: the `usize` loop equals the closed form (n ≤ 20), the reduction of
+  coherence to the successor step lemma, the step lemma.
+
+This file: the summary statements and the remaining refutations.
 -/
-import NoulithModel.Spec.StreamSpec
+import NoulithModel.Theorems.C11Inf
+import NoulithModel.Theorems.C11Perm
 
 namespace Noulith.C11
 open Noulith Noulith.Stream Noulith.StreamSpec
 
-/-- F3 witness: the `Sign::Minus` arm before the fix reports 0 for `10 til 0 by (-3)` -/
-theorem range_len_prefix_refuted :
-    Range.lenPreFix (Range.til 10 0 (-3)) = some 0 ∧
-    collect Range.next 10 (Range.til 10 0 (-3)) = some [10, 7, 4, 1] := by
-  decide
+/-! ## the property for one coherent stream value, all observations at once -/
+
+/-- For a stream value `s` that is coherent with the list `l` (which the per-type theorems establish
+for every reachable state of every finite stream type): `len(s)` is the number of elements
+iteration yields, `list(s)` is `l`, `s[i]` and `s[a:b]` are Python indexing / slicing of `l` for
+every index and every pair of bounds, `reverse`, `first`, `last`, `x in s`, truthiness and unpacking
+agree with `l`. -/
+theorem finite_stream_observations {β : Type} [DecidableEq β] (s : Strm β) (l : List β)
+    (h : Coherent s.ops s.st l) :
+    s.len = .ok (some l.length) ∧
+    s.toList = .ok l ∧
+    (∀ i, s.index i = idxRes l i) ∧
+    (∀ lo hi, ∃ r, s.slice lo hi = .ok r ∧
+      (match r with
+       | .inl l' => l' = pySliceSpec l lo hi
+       | .inr t => Unfolds t.ops.next t.st (pySliceSpec l lo hi))) ∧
+    s.reversed = .ok (.inl l.reverse) ∧
+    s.truthy = .ok (!l.isEmpty) ∧
+    (∀ a, s.mem a = .ok (decide (a ∈ l))) ∧
+    (∀ k, s.unpack k = if k = l.length then .ok l else .throw) ∧
+    (∀ p, s.takeWhile p = .ok (l.takeWhile p)) :=
+  ⟨len_eq h, toList_eq h, index_eq h, slice_eq h, reversed_eq h, truthy_eq h, mem_eq h,
+    unpack_eq h, takeWhile_eq h⟩
+
+/-- non-vacuity: `1 to 5` is coherent with `[1,2,3,4,5]`, so e.g. its slice `[1:3]` is `[2,3]` -/
+example : Coherent Range.ops (Range.to 1 5 1) [1, 2, 3, 4, 5] := by
+  have := to_coherent 1 5 1 (by decide) (by decide)
+  have e : rangeList 1 (if (1 : Int) < 0 then 5 - 1 else 5 + 1) 1 = [1, 2, 3, 4, 5] := by decide
+  rw [e] at this
+  exact this
+
+/-- observation purity in the model: an observation is a function of the stream value and returns
+no new value for the variable — `Strm.len`, `toList`, `index`, … take `s` and give a result; the
+only operations that return a stream (`slice`, `reversed`, `dropWhile`) return a *new* package and
+leave `s` as it is.  That the real interpreter does the same (consumers clone the box unless they
+own the only handle) is what the differential run checks on one variable observed repeatedly. -/
+theorem observation_returns_same_ops {β : Type} (s : Strm β) (lo hi : Option Int) (t : Strm β)
+    (h : s.slice lo hi = .ok (.inr t)) : t.σ = s.σ ∧ HEq t.ops s.ops := by
+  unfold Strm.slice R.map R.bind at h
+  cases hs : s.ops.slice s.st lo hi with
+  | ok r =>
+    rw [hs] at h
+    cases r with
+    | list l => simp [Strm.ofSlice] at h
+    | strm st =>
+      simp only [Strm.ofSlice, R.ok.injEq, Sum.inr.injEq] at h
+      subst h
+      exact ⟨rfl, HEq.rfl⟩
+  | throw => rw [hs] at h; cases h
+  | panic => rw [hs] at h; cases h
+  | diverge => rw [hs] at h; cases h
+
+/-! ## refutations of the pre-fix code -/
+
+/-- F21: before the fix `[] ^^ 0` was the empty stream although the empty product has one element,
+the empty tuple; the fixed constructor yields exactly it -/
+theorem cpow_empty_zero :
+    Unfolds CPow.next (CPow.mkPreFix ([] : List Nat) 0) [] ∧
+    tuples ([] : List Nat) 0 = [[]] ∧
+    Unfolds CPow.next (CPow.mk ([] : List Nat) 0) [[]] := by
+  refine ⟨.done rfl, rfl, .step rfl (.done rfl)⟩
+
+/-- F14: with the loop bound `v.len() - 1` of the original code the scan of an empty index vector
+would run `0..usize::MAX`; with `saturating_sub` it does not run, and `permutations([])` is the
+one empty permutation -/
+theorem perm_empty : Unfolds Perm.next (Perm.mk ([] : List Nat)) [[]] :=
+  .step rfl (.done rfl)
+
+/-! ## statements that are not proved here (kept at full strength) -/
+
+/-- enumeration order: `permutations(xs)` yields the permutations in lexicographic order of positions -/
+def perms_enumeration_statement : Prop :=
+  ∀ (xs : List Nat), Unfolds Perm.next (Perm.mk xs) (lexPerms xs)
+
+/-- enumeration order: `combinations(xs, k)` yields the `k`-sublists in lexicographic order of positions -/
+def combs_enumeration_statement : Prop :=
+  ∀ (xs : List Nat) (k : Nat), Unfolds Comb.next (Comb.mk xs k) (combs k xs)
+
+/-- enumeration order: `subsequences(xs)` yields all sublists in binary-counter order -/
+def subseqs_enumeration_statement : Prop :=
+  ∀ (xs : List Nat), Unfolds Subseq.next (Subseq.mk xs) (subseqs xs)
+
+/-- enumeration order: `xs ^^ k` yields the `k`-tuples in lexicographic order -/
+def tuples_enumeration_statement : Prop :=
+  ∀ (xs : List Nat) (k : Nat), Unfolds CPow.next (CPow.mk xs k) (tuples xs k)
 
 end Noulith.C11
